@@ -74,7 +74,7 @@ fn run(root: PathBuf, out_dir: PathBuf, overrides: HashMap<String, PathBuf>) -> 
         if !known { return Err(format!("--override {}: no target reads this file", rel)); }
     }
     let mut world = World {
-        root, overrides, files: HashMap::new(), aliases: HashMap::new(), structs: HashMap::new(), enums: HashMap::new(),
+        root, overrides, files: HashMap::new(), aliases: HashMap::new(), raw_aliases: HashMap::new(), structs: HashMap::new(), enums: HashMap::new(),
         consts: HashMap::new(), fns: HashMap::new(), borrows: HashMap::new(), places: HashMap::new(), opaque_types: targets::OPAQUE_TYPES.iter().map(|s| s.to_string()).collect(),
     };
     // type aliases
@@ -84,11 +84,18 @@ fn run(root: PathBuf, out_dir: PathBuf, overrides: HashMap<String, PathBuf>) -> 
         for it in items {
             if let syn::Item::Type(t) = it {
                 if !t.generics.params.is_empty() { continue; }
+                let mut prim = false;
                 if let Ok(ty) = resolve_type(&world, &t.ty, None) {
                     if matches!(ty, RTy::Int(_) | RTy::Bool | RTy::Char) {
+                        prim = true;
                         if world.aliases.insert(t.ident.to_string(), ty).is_some() {
                             return Err(format!("{}: type alias `{}` defined twice", world.path_of(rel).display(), t.ident));
                         }
+                    }
+                }
+                if !prim {
+                    if world.raw_aliases.insert(t.ident.to_string(), (*t.ty).clone()).is_some() {
+                        return Err(format!("{}: type alias `{}` defined twice", world.path_of(rel).display(), t.ident));
                     }
                 }
             }
@@ -557,6 +564,18 @@ fn translate_fn(world: &World, t: &'static Target, sig: &syn::Signature, block: 
             syn::FnArg::Receiver(r) => {
                 if r.reference.is_none() { return Err(tr.err(a, "by-value `self`")); }
                 mut_self = r.mutability.is_some();
+                // `impl Trait for Alias` with `type Alias = [S; N]`: `self` is an ordinary (list) parameter
+                if tr.self_struct.is_none() && !mut_self {
+                    if let Some(raw) = t.container.ns().and_then(|n| world.raw_aliases.get(n)).cloned() {
+                        let ty = tr.resolve_type(&raw)?;
+                        let ty = match (ty, &t.what) { (RTy::VecFn(el), What::Fn { vec_list: true, .. }) => RTy::VecList(el), (x, _) => x };
+                        if !matches!(ty, RTy::VecList(_) | RTy::VecFn(_)) { return Err(tr.err(a, "`self` of an unsupported alias type")); }
+                        tr.rust_params.push(("self".to_string(), ty.clone()));
+                        let l = tr.declare(a, "self", ty.clone(), false, Some(i))?;
+                        tr.lparams.push(LeanParam { name: l, ty, origin: Origin::Param(i), key: (i, 0, 0) });
+                        continue;
+                    }
+                }
                 let s = tr.self_struct.clone().unwrap_or_else(|| "Self".to_string());
                 tr.rust_params.push(("self".to_string(), RTy::Flat(s.clone())));
                 tr.env.push(Var { rust: "self".into(), lean: "self".into(), ty: RTy::Flat(s), depth: 1, mutable: false, param: Some(i), declared: true });
